@@ -8,6 +8,7 @@ sequential program `[func(read(f)) for f in files]` (written here, independent
 of typhon) plus exactly-once, in-flight bound, exception and warning rules.
 """
 import os
+import re
 import shutil
 import warnings
 from datetime import datetime, timedelta
@@ -180,7 +181,7 @@ def gen_workload(tape):
     w["layout"] = tape.pick(["flat", "daily"], "layout")
     w["gap_h"] = tape.pick([1, 1, 7, 30], "gap")      # hours between files
     w["worker_type"] = tape.pick(["thread", "process"], "wtype")
-    w["max_workers"] = tape.pick([2, 1, 3, 4, None], "workers")
+    w["max_workers"] = tape.pick([2, 1, 3, 4, None, 6, 8], "workers")
     n = w["n"]
     opts = {}
     if w["op"] in ("map", "imap"):
@@ -376,6 +377,9 @@ def _ret(opts, info_plain, value):
     return [info_plain, value] if opts.get("return_info") else value
 
 
+_TOP_TASK = re.compile(r"^[a-z]+1\.w(\d+)$")
+
+
 # ------------------------------------------------------------------- the run
 def run_one(tape, only=None):
     _T["state"].restore()      # each run models a fresh interpreter
@@ -383,6 +387,27 @@ def run_one(tape, only=None):
     res = new_result()
     w = gen_workload(tape)
     policy = make_policy(tape)
+    if tape.flag("target_order", 1, 4):
+        # systematic part: aim at one completion order of the first pool's
+        # per-file tasks (a permutation drawn from the tape); everything else
+        # (the caller, nested pools) runs whenever it can
+        perm = tape.perm(6, "target_perm")
+        pos = {seq: r for r, seq in enumerate(perm)}
+        if w["n"] <= 6 and tape.flag("target_wide", 1, 2):
+            w["max_workers"] = 8          # every order of <= 6 tasks is feasible
+        # virtual latencies would decide the order instead of the ranking
+        w["stalls"] = {k: [x for x in plan if x[0] == "y"]
+                       for k, plan in w["stalls"].items()}
+
+        def rank(t, pos=pos):
+            m = _TOP_TASK.match(t.name)
+            if m is None:
+                return -1
+            if t.steps == 0:
+                return -1          # first get every startable task started
+            seq = int(m.group(1))
+            return pos.get(seq, 100 + seq)
+        policy = {"kind": "target", "perm": list(perm), "rank": rank}
     sim = Sim(tape, policy, step_cap=6000)
     st = State(sim, tape, w)
     ST = st
